@@ -137,7 +137,7 @@ func c15ByLanguage(p *Program, r *Report) bool {
 		switch name {
 		case "BackgroundImageURLs":
 			item := `url\("` + umark + specCSSStr + `"\)`
-			spec.WriteString(`(?:` + q + `:(?:(?:, )?` + item + `)*;)?`)
+			spec.WriteString(`(?:` + q + `:(?:(?:, )?` + item + `)+;)?`)
 			full.WriteString(q + `:` + item + `;`)
 		case "FontFamily":
 			m, ok := mark("elem:0." + name)
@@ -146,7 +146,7 @@ func c15ByLanguage(p *Program, r *Report) bool {
 				alt = m + `|` + alt
 				classOf[oe.pseudo["elem:0."+name]] = "ident"
 			}
-			spec.WriteString(`(?:` + q + `:(?:(?:, )?(?:` + alt + `))*;)?`)
+			spec.WriteString(`(?:` + q + `:(?:(?:, )?(?:` + alt + `))+;)?`)
 			full.WriteString(q + `:(?:` + alt + `);`)
 		default:
 			m, ok := mark("field:0." + name)
